@@ -9,7 +9,7 @@ from lib import common as C
 from lib import symtables as S
 from lib import crystals as K
 
-STATIC = S.STATIC + ["Reflect/GroupChecksProofs.vo", "Reflect/NormChecksProofs.vo", "Reflect/GroundChecksProofs.vo",
+STATIC = S.STATIC + ["Reflect/GroupChecksProofs.vo", "Reflect/NormChecksProofs.vo", "Reflect/CertProofs.vo", "Reflect/GroundChecksProofs.vo",
                      "Symmetry/GroundStateProofs.vo", "Symmetry/GroundStateInvariance.vo", "Symmetry/Congruence.vo",
                      "Symmetry/GroundAgree.vo"]
 
